@@ -53,6 +53,7 @@ def cases(tier, seed):
         out.append({"cid": f"c10-{seed}-{k}", "lib": rng.choice(["ufoLib2", "defcon"]), "fam": fam,
                     "flavor": rng.choice(["tt", "cff2"]), "varFeatures": rng.random() < 0.6,
                     "prodNames": rng.random() < 0.2, "kern2": rng.random() < 0.25})
+    out += vfs_cases(random.Random(seed * 373587883 + 100010), 4 if tier == "quick" else 40, f"c10-{seed}")
     return out
 
 
@@ -118,6 +119,8 @@ def execute(case):
     import ufo2ft
     from fontTools.varLib import instancer
 
+    if case.get("vfs"):
+        return execute_vfs(case)
     lib = case["lib"]
     fam = case["fam"]
     kw = {"variableFeatures": case["varFeatures"], "useProductionNames": case["prodNames"]}
@@ -191,6 +194,71 @@ def execute(case):
             mr["_acc"] = "mark"
             mr["_k"] = k
             recs.append(mr)
+    return recs
+
+
+def vfs_cases(rng, n, prefix):
+    """Designspaces with two <variable-font>s sharing masters: one spans the whole axis, the other only its lower part
+    (listed before or after).  A composite whose 2x2 differs ONLY in the master outside the smaller one's range must still
+    be stored as contours in every master, or the full variable font loses it."""
+    out = []
+    for k in range(n):
+        fam = gen.rich_family(rng, n_masters=3, kerning=(k % 2 == 0))
+        by = {m["loc"]["Weight"]: m for m in fam["masters"]}
+        if "colon" in by[400]["ufo"]["glyphs"]:
+            for m in fam["masters"]:
+                for c in m["ufo"]["glyphs"]["colon"]["comps"]:
+                    c["m"] = [64, 0, 0, 64]
+            by[700]["ufo"]["glyphs"]["colon"]["comps"][k % 2]["m"] = [80, 0, 0, 80]
+        vfs = [{"name": "FullVF"}, {"name": "LowVF", "subsets": {"Weight": {"min": 400, "max": 550}}}]
+        if k % 3 == 2:
+            vfs.reverse()
+        fam["variableFonts"] = vfs
+        out.append({"cid": f"{prefix}-vfs{k}", "vfs": True, "lib": rng.choice(["ufoLib2", "defcon"]), "fam": fam,
+                    "flavor": "tt" if k % 4 != 3 else "cff2"})
+    return out
+
+
+def execute_vfs(case):
+    """compileVariableTTFs / compileVariableCFF2s: every variable font, instantiated at the location of each master inside
+    its range, against the jointly compiled interpolatable master."""
+    import io
+
+    import ufo2ft
+    from fontTools.ttLib import TTFont
+    from fontTools.varLib import instancer
+
+    lib, fam = case["lib"], case["fam"]
+    ds = dsbuild.build_designspace(fam, lib)
+    tt = case["flavor"] == "tt"
+    try:
+        outs = (ufo2ft.compileVariableTTFs if tt else ufo2ft.compileVariableCFF2s)(ds, useProductionNames=False)
+    except Exception as e:  # noqa
+        return [{"tid": case["cid"], "_acc": "vf", "err": type(e).__name__ + ": " + str(e)[:200], "events": [], "multi": True}]
+    ds2 = dsbuild.build_designspace(fam, lib)
+    masters = [s.font for s in (ufo2ft.compileInterpolatableTTFsFromDS if tt else ufo2ft.compileInterpolatableOTFsFromDS)(
+        ds2, useProductionNames=False).sources]
+    recs = []
+    for vf in fam["variableFonts"]:
+        sub = (vf.get("subsets") or {}).get("Weight") or {}
+        lo, hi = sub.get("min", fam["axes"][0]["min"]), sub.get("max", fam["axes"][0]["max"])
+        if vf["name"] not in outs:
+            recs.append({"tid": f"{case['cid']}/{vf['name']}", "_acc": "vf", "err": "MissingVF", "events": [], "multi": True})
+            continue
+        data, _ = project.save_reload(outs[vf["name"]])
+        for k, m in enumerate(fam["masters"]):
+            loc = m["loc"]["Weight"]
+            if not lo <= loc <= hi:
+                continue
+            inst = instancer.instantiateVariableFont(TTFont(io.BytesIO(data)), {"wght": loc}, inplace=False)
+            _, inst = project.save_reload(inst)
+            _, mfont = project.save_reload(masters[k])
+            worst, same_struct, same_glyphs = (_max_diff_tt if tt else _max_diff_cff)(inst, mfont)
+            hm_i, hm_m = inst["hmtx"], mfont["hmtx"]
+            adv = max(abs(hm_i[n][0] - hm_m[n][0]) for n in inst.getGlyphOrder() if n in hm_m.metrics)
+            recs.append({"tid": f"{case['cid']}/{vf['name']}/m{k}", "_acc": "vf", "outlineDiffMilli": int(worst * 1000), "advDiff": int(adv),
+                         "structSame": same_struct, "glyphsSame": same_glyphs, "events": [], "multi": True, "varFeatures": True,
+                         "_sig": [case["cid"], vf["name"], k], "_k": 1 if loc != 400 else 0})
     return recs
 
 
